@@ -86,16 +86,16 @@ PROPS = {
         'partial': 'PARTIAL: data-race freedom is a runtime property no executable model exhibits; proved: projection under no-shared-writes (regenerated facts), copy-on-write of tables, cancellation stops without back edges and closes bookkeeping',
     },
     'C19': {
-        'modules': ['Artela.Props.C19'],
+        'modules': ['Artela.Props.C19', 'Artela.Props.C19Once', 'Artela.Props.C19Flat', 'Artela.Proofs.RoseFlat'],
         'runs': [{'layer': 'calltracer'}],
         'trusted_base': TB_M4,
         'assumptions': ['streams are generated from the tree grammar (depth <= 5, width <= 4, 0-3 Aspects per join point, 0-2 calls per Aspect)'],
-        'partial': 'no-panic and per-event filing proved for all event sequences; exact rendering and flat invariants are checked against the generating tree on every run (S ctrender, S ctflatinv), not proved',
+        'partial': 'PARTIAL: proved for the nested tracer over all callback sequences (no panic, exactly-once accounting, filing rule, own result per Aspect); the flat conversion (trace addresses unique and prefix-closed, subtraces = emitted children, one entry per node) proved under PreFirst (pre-call Aspect frames precede post-call ones on every frame - necessary, witness proved; checked by the driver on every stream); the JSON rendering and the precompile filtering of the flat tracer are tied by correspondence (S ctrender, S ctflatinv, S ctflatown)',
     },
     'C04': frame_prop(['Artela.Props.C04']),
-    'C05': frame_prop(['Artela.Props.C05']),
-    'C06': frame_prop(['Artela.Props.C06']),
-    'C08': frame_prop(['Artela.Props.C08'], ['tracer']),
+    'C05': frame_prop(['Artela.Props.C05', 'Artela.Props.C05Nest']),
+    'C06': frame_prop(['Artela.Props.C06', 'Artela.Props.C06Run']),
+    'C08': frame_prop(['Artela.Props.C08', 'Artela.Props.C08Count'], ['tracer']),
     'C09': {
         'modules': ['Artela.Props.C09'],
         'runs': [{'layer': 'journal'}],
@@ -103,27 +103,25 @@ PROPS = {
         'assumptions': ['storage words are < 2^256 (common.Hash)', 'Go append returns capacity >= length'],
     },
     'C11': {
-        'modules': ['Artela.Props.C11'],
+        'modules': ['Artela.Props.C11', 'Artela.Props.C11Global'],
         'runs': [{'layer': 'tracer'}],
         'trusted_base': TB_M1 + ['harness-side bookkeeping of accepted registrations (conflict classes, paths) computed from the history alone'],
         'assumptions': [],
         'partial': 'c11_full is FALSE for the current code (c11_full_is_false; witnesses c11_witness_*): known finding D14 (conflicting registrations). '
-                   'Proved for every state: refusals pure, non-conflicting registration reachable through both lookups at one node, change goes to '
-                   'the indexed node, child names exact. History-level agreement for non-conflicting registrations is checked by the S both-see probes.',
+                   'Proved: agreement of the two lookups as a global invariant over ALL conflict-free histories (c11_conflict_free_agree); for every state '
+                   'refusals pure, change goes to the indexed node, child names exact.',
     },
     'C10': {
-        'modules': ['Artela.Props.C10'],
+        'modules': ['Artela.Props.C10', 'Artela.Props.C10Frame', 'Artela.Props.C13Frame'],
         'runs': [{'layer': 'tracer'}, {'layer': 'journal'}, {'layer': 'frame'}],
-        'trusted_base': TB_M1 + TB_M2,
-        'assumptions': ['the opcodes pass scope.Contract.Address() (journal layer, single frame); multi-frame attribution (DELEGATECALL/CALLCODE/CREATE) is exercised by the frame layer when present'],
-        'partial': 'tracer part proved (index = cursor, change local to one node, list law = collapsed history); frame-level attribution by correspondence',
+        'trusted_base': TB_M1 + TB_M2 + TB_M5,
+        'assumptions': ['the opcodes pass scope.Contract.Address(), which the frame model calls the frame\'s storage address (tied by the frame and journal layers)'],
     },
     'C13': {
-        'modules': ['Artela.Props.C13'],
+        'modules': ['Artela.Props.C13', 'Artela.Props.C13Frame'],
         'runs': [{'layer': 'tracer'}, {'layer': 'frame'}],
-        'trusted_base': TB_M1 + ['the four balances of a transfer are read by the harness from the real StateDB before and after a real Transfer and handed to the model'],
-        'assumptions': ['Call/create invoke TransferWithRecord exactly once per frame reaching the transfer (frame layer)'],
-        'partial': 'tracer part proved (order, index, list law, root-only); exactly-the-transfers at frame level by correspondence',
+        'trusted_base': TB_M1 + TB_M5 + ['the four balances of a transfer are read by the harness from the real StateDB before and after a real Transfer and handed to the model'],
+        'assumptions': ['"equal to the real state balances" is by construction of TransferWithRecord (it reads the StateDB around the host Transfer); checked on the implementation by S balshadow'],
     },
     'C15': {
         'modules': ['Artela.Props.C15', 'Artela.Proofs.GenFacts'],
@@ -166,7 +164,7 @@ PROPS = {
         'assumptions': ['NewEVM allocates a fresh tracer per EVM (generated fact) and no package-level tracer state exists'],
     },
     'C07': {
-        'modules': ['Artela.Props.C07', 'Artela.Props.C07Frame'],
+        'modules': ['Artela.Props.C07', 'Artela.Props.C07Frame', 'Artela.Props.C07Roots'],
         'runs': [{'layer': 'tracer'}, {'layer': 'frame'}],
         'trusted_base': TB_M1,
         'assumptions': ['the frame layer performs no call-tree operation other than SaveCall on entry and the deferred ExitCall'],
